@@ -160,21 +160,21 @@ def laHolds : Option (Bool × Re) → List Nat → Bool
   | none, _ => true
   | some (pos, r), rest => prefixMatchNE r rest == pos
 
-structure Term where
+structure ScanTerm where
   re : Re
   tok : Nat
   la : Option (Bool × Re)
   deriving Repr
 
 /-- Longest non-empty match of one terminal whose lookahead condition holds at its end. -/
-def Term.matchLen (t : Term) (w : List Nat) : Option Nat :=
+def ScanTerm.matchLen (t : ScanTerm) (w : List Nat) : Option Nat :=
   longestFromFast (laHolds t.la) t.re w 0 none
 
-def Term.matchLenSpec (t : Term) (w : List Nat) : Option Nat :=
+def ScanTerm.matchLenSpec (t : ScanTerm) (w : List Nat) : Option Nat :=
   longestFrom (laHolds t.la) t.re w 0 none
 
 /-- Longest match among the terminals; on equal length the terminal declared first wins. -/
-def bestOf (len : Term → Option Nat) : List Term → Option (Nat × Nat) → Option (Nat × Nat)
+def bestOf (len : ScanTerm → Option Nat) : List ScanTerm → Option (Nat × Nat) → Option (Nat × Nat)
   | [], best => best
   | t :: ts, best =>
     match len t, best with
@@ -185,8 +185,8 @@ def bestOf (len : Term → Option Nat) : List Term → Option (Nat × Nat) → O
 inductive ModeOp | enter (m : Nat) | push (m : Nat) | pop
   deriving DecidableEq, Repr
 
-structure Mode where
-  terms : List Term
+structure ScanMode where
+  terms : List ScanTerm
   trans : List (Nat × ModeOp)
   skips : List Nat := []
   deriving Repr
@@ -196,8 +196,8 @@ structure ScanSt where
   stack : List Nat
   deriving DecidableEq, Repr
 
-/-- Mode transition at match time. `pop` on an empty stack keeps the current mode. -/
-def applyOp (st : ScanSt) : Option ModeOp → ScanSt
+/-- ScanMode transition at match time. `pop` on an empty stack keeps the current mode. -/
+def applyModeOp (st : ScanSt) : Option ModeOp → ScanSt
   | none => st
   | some (.enter m) => { st with mode := m }
   | some (.push m) => { mode := m, stack := st.mode :: st.stack }
@@ -205,11 +205,11 @@ def applyOp (st : ScanSt) : Option ModeOp → ScanSt
     | [] => st
     | m :: s => { mode := m, stack := s }
 
-def lookupOp (trans : List (Nat × ModeOp)) (tok : Nat) : Option ModeOp :=
+def lookupModeOp (trans : List (Nat × ModeOp)) (tok : Nat) : Option ModeOp :=
   (trans.find? (·.1 == tok)).map (·.2)
 
 /-- A scanned token: type, start and end as character indices, and the mode it was read in. -/
-structure Tok where
+structure ScanTok where
   tok : Nat
   start : Nat
   stop : Nat
@@ -217,14 +217,14 @@ structure Tok where
   deriving DecidableEq, Repr
 
 /-- One step of the documented rule at the head of `w`: `some (len, tok)` for a match. -/
-def stepMatch (modes : List Mode) (st : ScanSt) (w : List Nat) : Option (Nat × Nat) :=
+def stepMatch (modes : List ScanMode) (st : ScanSt) (w : List Nat) : Option (Nat × Nat) :=
   match modes[st.mode]? with
   | none => none
   | some m => bestOf (·.matchLen w) m.terms none
 
 /-- The tokenizer, fuelled by the number of characters left (+1). `none` = fuel exhausted, which
     `tokenize_total` excludes for `tokenizeSpec`. -/
-def tokenizeFuel (modes : List Mode) : Nat → ScanSt → List Nat → Nat → Option (List Tok)
+def tokenizeFuel (modes : List ScanMode) : Nat → ScanSt → List Nat → Nat → Option (List ScanTok)
   | _, _, [], _ => some []
   | 0, _, _ :: _, _ => none
   | f + 1, st, x :: xs, pos =>
@@ -232,13 +232,19 @@ def tokenizeFuel (modes : List Mode) : Nat → ScanSt → List Nat → Nat → O
     | none => tokenizeFuel modes f st xs (pos + 1)          -- nothing matches: skip one character
     | some (n, tok) =>
       let tr := (modes[st.mode]?.map (·.trans)).getD []
-      let st' := applyOp st (lookupOp tr tok)
+      let st' := applyModeOp st (lookupModeOp tr tok)
       -- `n ≥ 1` always (see `stepMatch_pos`); written `n - 1` so that the recursion is visibly on `xs`
       (tokenizeFuel modes f st' (xs.drop (n - 1)) (pos + n)).map
         (⟨tok, pos, pos + n, st.mode⟩ :: ·)
 
-def tokenizeSpec (modes : List Mode) (w : List Nat) : Option (List Tok) :=
+def tokenizeSpec (modes : List ScanMode) (w : List Nat) : Option (List ScanTok) :=
   tokenizeFuel modes (w.length + 1) ⟨0, []⟩ w 0
+
+/-- scnr2 0.5.2 as observed (finding F19): U+10FFFF belongs to no character class of a generated
+    scanner (off-by-one at `char::MAX` in `scnr2_generate::character_classes`), so no terminal ever
+    matches it. The faithful model of the scanner therefore sees it as a value outside every
+    (lowered, hence bounded by U+10FFFF) class. The specification does not do this. -/
+def scnr2Text (w : List Nat) : List Nat := w.map fun c => if c = 0x10FFFF then 0x110000 else c
 
 /-! ### UTF-8 byte offsets (the implementation reports byte offsets) -/
 
@@ -310,7 +316,7 @@ term  = `<tok>~<re>` | `<tok>~<re>~+<re>` (followed by) | `<tok>~<re>~!<re>` (no
 trans = `<tok>>e<mode>` | `<tok>>p<mode>` | `<tok>>o`
 mode  = `<term>;…/<trans>;…/<skip>;…`  (sections may be empty), modes are joined by `_`. -/
 
-def parseTerm (s : String) : Option Term :=
+def parseScanTerm (s : String) : Option ScanTerm :=
   match s.splitOn "~" with
   | [t, r] => do some ⟨← Re.dec r, ← t.toNat?, none⟩
   | [t, r, l] => do
@@ -318,7 +324,7 @@ def parseTerm (s : String) : Option Term :=
     some ⟨← Re.dec r, ← t.toNat?, some (pos, ← Re.dec (l.drop 1).toString)⟩
   | _ => none
 
-def parseTrans (s : String) : Option (Nat × ModeOp) :=
+def parseModeTrans (s : String) : Option (Nat × ModeOp) :=
   match s.splitOn ">" with
   | [t, o] => do
     let t ← t.toNat?
@@ -328,19 +334,19 @@ def parseTrans (s : String) : Option (Nat × ModeOp) :=
     else none
   | _ => none
 
-def parseSection {α} (f : String → Option α) (s : String) : Option (List α) :=
+def parseScanSection {α} (f : String → Option α) (s : String) : Option (List α) :=
   if s.isEmpty then some [] else (s.splitOn ";").mapM f
 
-def parseMode (s : String) : Option Mode :=
+def parseScanMode (s : String) : Option ScanMode :=
   match s.splitOn "/" with
   | [a, b, c] => do
-    some { terms := ← parseSection parseTerm a, trans := ← parseSection parseTrans b,
-           skips := ← parseSection String.toNat? c }
+    some { terms := ← parseScanSection parseScanTerm a, trans := ← parseScanSection parseModeTrans b,
+           skips := ← parseScanSection String.toNat? c }
   | _ => none
 
-def parseModes (s : String) : Option (List Mode) := (s.splitOn "_").mapM parseMode
+def parseScanModes (s : String) : Option (List ScanMode) := (s.splitOn "_").mapM parseScanMode
 
-def showToks (w : List Nat) (ts : List Tok) : String :=
+def showToks (w : List Nat) (ts : List ScanTok) : String :=
   let offs := byteOffsets w
   if ts.isEmpty then "-" else
   ",".intercalate (ts.map fun t => s!"{t.tok}:{offs.getD t.start 0}:{offs.getD t.stop 0}")
@@ -359,7 +365,7 @@ def handleReMatch : List String → Option String
     byte offsets (reusable by parser-level checks). -/
 def handleTokenize : List String → Option String
   | [m, w] => do
-    let m ← parseModes m
+    let m ← parseScanModes m
     let w ← Proto.parseNats w
     match tokenizeSpec m w with
     | none => some "fuel-exhausted"
